@@ -14,7 +14,7 @@ done
 out=/verif/coverage; rm -rf "$out"; mkdir -p "$out"
 cd "$out" || exit 2
 find "$bdir" -name '*.gcda' | while read -r f; do
-  gcov -o "$(dirname "$f")" "$f" >/dev/null 2>&1
+  gcov -b -c -o "$(dirname "$f")" "$f" >/dev/null 2>&1
 done
 for g in *.gcov; do
   case "$g" in *.h.gcov|*.cc.gcov|*.c.gcov) ;; *) continue;; esac
